@@ -446,6 +446,9 @@ func genOp(t *rapid.T, method string, maxCalls int, big bool) Op {
 		o.Tmpl += "/" + rapid.SampledFrom(literals).Draw(t, "seg-lit")
 	}
 	o.Payload = "none"
+	if method == "GET" && rapid.IntRange(0, 3).Draw(t, "get-with-a-body") == 0 {
+		o.Payload = "json" // a GET may carry a body; whether it has one is a matter of length and stream (r9)
+	}
 	if method != "GET" {
 		o.Payload = rapid.SampledFrom([]string{"none", "json", "json", "yaml", "form", "form", "multipart", "multipart", "multipart"}).Draw(t, "payload")
 		if o.Payload != "none" {
@@ -504,6 +507,7 @@ func genOp(t *rapid.T, method string, maxCalls int, big bool) Op {
 				c.Body = jsonText(genJSONObject(t, 2))
 			}
 			yamlDoc = false
+			c.Stream = o.Payload == "json" && rapid.IntRange(0, 3).Draw(t, "body-as-a-reader") == 0
 		}
 		for range o.FileFields {
 			c.Files = append(c.Files, genFile(t, big))
